@@ -20,6 +20,7 @@ package main
 
 import (
 	"fmt"
+	"go/types"
 	"sort"
 	"strconv"
 	"strings"
@@ -55,6 +56,11 @@ func downRes(outer resolver, cs ssa.CallInstruction) resolver {
 	cal := cs.Common().StaticCallee()
 	args := cs.Common().Args
 	return func(v ssa.Value) string {
+		// a value of the calling function (it reaches the callee's tests through a bound bool parameter,
+		// see boundBool) is named by the caller's resolver
+		if f := fnOfValue(v); f != nil && f == cs.Parent() && f != cal {
+			return outer(v)
+		}
 		p := pathOf(v)
 		if cal == nil {
 			return p
@@ -68,6 +74,51 @@ func downRes(outer resolver, cs ssa.CallInstruction) resolver {
 			}
 		}
 		return p
+	}
+}
+
+func fnOfValue(v ssa.Value) *ssa.Function {
+	switch x := v.(type) {
+	case *ssa.Parameter:
+		return x.Parent()
+	case *ssa.FreeVar:
+		return x.Parent()
+	case ssa.Instruction:
+		return x.Parent()
+	}
+	return nil
+}
+
+// boundBool: while a helper is examined in the context of one call site, a bool parameter of the helper stands
+// for the condition the caller computed (`helper(a == b, …)` with `if !match { return }` inside): the facts of a
+// test of that parameter are the facts of the caller's condition.
+var boundBool = map[*ssa.Parameter]ssa.Value{}
+
+func bindBoolParams(cs ssa.CallInstruction) func() {
+	cal := cs.Common().StaticCallee()
+	if cal == nil {
+		return func() {}
+	}
+	var bound []*ssa.Parameter
+	for k, prm := range cal.Params {
+		if k >= len(cs.Common().Args) {
+			break
+		}
+		if b, ok := prm.Type().Underlying().(*types.Basic); ok && b.Kind() == types.Bool {
+			if _, isConst := cs.Common().Args[k].(*ssa.Const); isConst {
+				continue
+			}
+			if _, already := boundBool[prm]; already {
+				continue
+			}
+			boundBool[prm] = cs.Common().Args[k]
+			bound = append(bound, prm)
+		}
+	}
+	return func() {
+		for _, prm := range bound {
+			delete(boundBool, prm)
+		}
 	}
 }
 
@@ -499,6 +550,9 @@ func behindDeepSite(d dcall, spec gspec) bool {
 		rs = append(rs, downRes(rs[len(rs)-1], cs))
 	}
 	at := d.c.(ssa.Instruction)
+	for _, cs := range d.chain {
+		defer bindBoolParams(cs)()
+	}
 	for lvl := len(d.chain); lvl >= 0; lvl-- {
 		if behind(at, deepEdges(at.Parent(), rs[lvl], spec, deepDepth)) {
 			return true
@@ -624,6 +678,26 @@ func (dw *deepWalk) cutOf(cx *dctx) map[Edge]bool {
 
 // feasible: may the branch edge be taken, given the helper returns the frame came through?
 func (fr *frame) feasible(e Edge) bool {
+	// a test of a bool parameter for which this call site passes a constant (`rollback(leaf, true)`)
+	if fr.upCall != nil {
+		for _, f := range edgeFacts(e) {
+			if f.kind != fTrue && f.kind != fFalse {
+				continue
+			}
+			prm, ok := f.x.(*ssa.Parameter)
+			if !ok || prm.Parent() != fr.cx.fn {
+				continue
+			}
+			args := fr.upCall.Common().Args
+			for k, p := range fr.cx.fn.Params {
+				if p == prm && k < len(args) {
+					if bv, isB := boolConst(args[k]); isB && bv != (f.kind == fTrue) {
+						return false
+					}
+				}
+			}
+		}
+	}
 	if len(fr.via) == 0 {
 		return true
 	}
